@@ -541,6 +541,22 @@ pub fn uniform_cols(cols: &[ColSpec]) -> bool {
 }
 
 pub fn gen_cols(g: &mut G<'_>, n: usize, bin: bool) -> Vec<ColSpec> {
+    let mut cols = gen_cols_distinct(g, n, bin);
+    // data that repeats itself (what a cache, a dedup or a lookup by name would trip over): a
+    // column that is the copy of an earlier one, or only shares its name, or is named like its table
+    if n >= 2 && g.chance(1, 10) {
+        let j = g.usize_in(1, n - 1);
+        let i = g.usize_in(0, j - 1);
+        match g.below(3) {
+            0 => cols[j] = cols[i].clone(),
+            1 => cols[j].name = cols[i].name.clone(),
+            _ => cols[j].table = cols[j].name.clone(),
+        }
+    }
+    cols
+}
+
+fn gen_cols_distinct(g: &mut G<'_>, n: usize, bin: bool) -> Vec<ColSpec> {
     if g.allow_offers && (2..=12).contains(&n) && g.chance(1, 25) {
         // columns of one kind (the sets in which short rows are tried: see gen_row)
         let fv = bin || g.chance(3, 4);
@@ -687,7 +703,21 @@ pub fn gen_set(g: &mut G<'_>, bin: bool, end: SetEnd, max_rows: usize) -> Step {
     let nrows = if n > 100 { nrows.min(2) } else { nrows };
     let mut rows: Vec<RowProg> = (0..nrows).map(|i| gen_row(g, &cols, bin, i + 1 == nrows)).collect();
     settle_short_rows(&mut rows, cols.len());
+    repeat_rows(g, &mut rows);
     Step::Set { cols, rows, end }
+}
+
+/// Sometimes a row is the exact copy of the row before it (identical consecutive rows).
+pub fn repeat_rows(g: &mut G<'_>, rows: &mut Vec<RowProg>) {
+    if rows.len() >= 2 && g.chance(1, 8) {
+        let i = g.usize_in(1, rows.len() - 1);
+        let ordinary = |r: &RowProg| matches!(r.form, RowForm::WriteRow | RowForm::WriteRowRef | RowForm::Cols) && r.offers.is_empty();
+        if ordinary(&rows[i]) && ordinary(&rows[i - 1]) && rows[i].cells.len() == rows[i - 1].cells.len() && !rows[i - 1].cells.iter().any(|c| matches!(c.base, Base::BigBytes { .. } | Base::BigStr { .. })) {
+            let form = rows[i].form;
+            rows[i] = rows[i - 1].clone();
+            rows[i].form = form;
+        }
+    }
 }
 
 /// A short row ended with end_row() (RowForm::ShortEndRow) leaves the writer in the middle of a row
@@ -710,7 +740,7 @@ pub fn settle_short_rows(rows: &mut Vec<RowProg>, ncols: usize) {
 
 /// A shape-conforming writer program (every call reports success on a healthy transport).
 pub fn gen_program(g: &mut G<'_>, bin: bool, max_rows: usize) -> Program {
-    let mut steps = Vec::new();
+    let mut steps: Vec<Step> = Vec::new();
     // chain of non-final units
     let chain = match g.weighted(&[6, 3, 2, 1]) {
         0 => 0,
@@ -740,7 +770,11 @@ pub fn gen_program(g: &mut G<'_>, bin: bool, max_rows: usize) -> Program {
         }
     };
     for _ in 0..chain {
-        if g.coin() {
+        if !steps.is_empty() && g.chance(1, 8) {
+            // the same unit once more (same counts, or the same resultset with the same rows)
+            let again = steps[steps.len() - 1].clone();
+            steps.push(again);
+        } else if g.coin() {
             steps.push(Step::CompleteOne { rows: g.u64_biased(), id: g.u64_biased() });
         } else {
             steps.push(set_of(g, SetEnd::FinishOne));
@@ -1005,6 +1039,16 @@ pub fn vary_announcements(g: &mut G<'_>, hs: &mut Handshake) {
     }
 }
 
+/// text for a PREPARE: one time in four a text that was prepared before on this connection
+fn gen_prepare_text(g: &mut G<'_>, seen: &mut Vec<Vec<u8>>) -> Vec<u8> {
+    if !seen.is_empty() && g.chance(1, 4) {
+        return g.pick(&seen[..]).clone();
+    }
+    let t = gen_query_text(g).into_bytes();
+    seen.push(t.clone());
+    t
+}
+
 /// Commands + actions.  Executes refer to statements prepared earlier in the conversation
 /// (with zero parameters, so the parameter block is empty).
 pub fn gen_conv(g: &mut G<'_>, o: &ConvOpts) -> Conversation {
@@ -1014,11 +1058,23 @@ pub fn gen_conv(g: &mut G<'_>, o: &ConvOpts) -> Conversation {
     // live statements: (id, declared parameter count, which parameters have long data pending)
     let mut live: Vec<(u32, usize, Vec<bool>)> = Vec::new();
     let mut next_id = 1u32;
+    // the last query with its answer, and the texts prepared so far (things that come again)
+    let mut last_query: Option<(Cmd, Action)> = None;
+    let mut prepared_texts: Vec<Vec<u8>> = Vec::new();
     for _ in 0..n {
-        match g.weighted(&[8, 6, 3, 2, 2, 2, 2, 1, 1, 1]) {
+        match g.weighted(&[8, 6, 3, 2, 2, 2, 2, 1, 1, 1, if last_query.is_some() { 2 } else { 0 }]) {
+            10 => {
+                // the same query once more, answered in exactly the same way
+                let (c, a) = last_query.clone().unwrap();
+                cmds.push(c);
+                actions.push(a);
+            }
             0 => {
-                cmds.push(Cmd::Query { text: Blob::Lit(gen_query_text(g).into_bytes()) });
-                actions.push(Action::Result(gen_program(g, false, o.max_rows)));
+                let c = Cmd::Query { text: Blob::Lit(gen_query_text(g).into_bytes()) };
+                let a = Action::Result(gen_program(g, false, o.max_rows));
+                last_query = Some((c.clone(), a.clone()));
+                cmds.push(c);
+                actions.push(a);
             }
             1 => {
                 // execute (prepare first if nothing is live)
@@ -1028,7 +1084,7 @@ pub fn gen_conv(g: &mut G<'_>, o: &ConvOpts) -> Conversation {
                     // mostly no parameters (an empty parameter block); sometimes two, so that long
                     // data has a parameter to address
                     let np = if g.chance(1, 3) { 2 } else { 0 };
-                    cmds.push(Cmd::Prepare { text: Blob::Lit(gen_query_text(g).into_bytes()) });
+                    cmds.push(Cmd::Prepare { text: Blob::Lit(gen_prepare_text(g, &mut prepared_texts)) });
                     actions.push(Action::Prepare(gen_prepare(g, id, np)));
                     live.retain(|(x, _, _)| *x != id);
                     live.push((id, np, vec![false; np]));
@@ -1047,7 +1103,7 @@ pub fn gen_conv(g: &mut G<'_>, o: &ConvOpts) -> Conversation {
                 actions.push(Action::Result(gen_program(g, true, o.max_rows)));
             }
             2 => {
-                cmds.push(Cmd::Prepare { text: Blob::Lit(gen_query_text(g).into_bytes()) });
+                cmds.push(Cmd::Prepare { text: Blob::Lit(gen_prepare_text(g, &mut prepared_texts)) });
                 if g.chance(1, 4) {
                     actions.push(Action::Prepare(PrepProg::Error { kind: gen_error_kind(g), msg: gen_error_msg(g) }));
                 } else {
